@@ -299,7 +299,23 @@ class atom(boolean.AndRestriction):
         elif self.version is not None:
             raise errors.MalformedAtom(orig_atom, "versioned atom requires an operator")
 
-        self._hash = hash(orig_atom)
+        # hash what __cmp__ compares (negate_vers aside) rather than the
+        # spelling, so that atoms comparing equal hash equal.
+        self._hash = hash(
+            (
+                self.category,
+                self.package,
+                self.op,
+                cpv.ver_hash_key(self.version, self.revision),
+                self.blocks,
+                self.blocks_strongly,
+                self.slot or "",
+                self.subslot or "",
+                self.slot_operator or "",
+                self.use,
+                self.repo_id,
+            )
+        )
         self.negate_vers = negate_vers
 
     __getattr__ = klass.GetAttrProxy("_cpv")
